@@ -6,6 +6,15 @@
    `c16 run <facts> <lists> <progs> <sched>` → the observation of one schedule (`invalid@k` if
                                                step k is not enabled)
 
+   `c16 ienum <facts> <lists> <iprogs>`      → the same for ADAPTIVE programs (a thread may drive a
+                                               Rust-side iterator: `I<l>` `h.clone().into_iter()`, `N` `it.next()`,
+                                               `Q` drop the iterator; what `next` decides is the generated
+                                               `Gen.ListIter`): every maximal schedule with the observation of the
+                                               step model on the operations issued (`N` = the `get` at the cursor);
+                                               `not-following` if the issued programs are not `Follows`
+   `c16 irun <facts> <lists> <iprogs> <sched>`   → the observation of one schedule of adaptive programs
+   `c16 iprogs <facts> <lists> <iprogs> <sched>` → the static programs issued along `sched`
+
    facts : `gen` (regenerated from the source) or four digits `<get><ffiGet><eq><concat>` (1 = clone under guard / `==` locks in address order / concat holds both operands)
    lists : `L1.2.3;L;L4`        progs : threads `;`-separated, ops `,`-separated:
            g<l>.<i> get   f<l>.<i> ffi get   p<l>.<v> push   c<a>.<b> concat   h<l>.<v> contains
@@ -22,6 +31,7 @@
 -/
 import Driver.Util
 import RotoV.Model.ListConc
+import RotoV.Model.ListConcIter
 import RotoV.Generated.C16Facts
 
 namespace Driver.C16
@@ -48,6 +58,19 @@ def parseOp (tok : String) : Option Op :=
   | 'y', some [l] => some (.isEmpty l)
   | 't', some [l] => some (.toVec l)
   | _, _ => none
+
+def parseIOp (tok : String) : Option IOp :=
+  if tok == "N" then some .iterNext
+  else if tok == "Q" then some .iterDrop
+  else if tok.front == 'I' then
+    match nats (tok.drop 1).toString "." with
+    | some [l] => some (.iterNew l)
+    | _ => none
+  else (parseOp tok).map .base
+
+def parseIProgs (s : String) : Option (List (List IOp)) :=
+  (s.splitOn ";").mapM fun th =>
+    if th.isEmpty then some [] else (th.splitOn ",").mapM parseIOp
 
 def parseProgs (s : String) : Option (List (List Op)) :=
   (s.splitOn ";").mapM fun th =>
@@ -112,6 +135,26 @@ def observe (F : Facts) (lists : List (List Nat)) (progs : List (List Op)) (sche
     let sp := ",".intercalate ((s.hist.zip s.spans).map fun (d, p) => s!"{d.tid}:{p.1}-{p.2}")
     s!"{",".intercalate steps};{fin};{res};{ls};{sp}"
 
+def showOp : Op → String
+  | .get l i => s!"g{l}.{i}" | .ffiGet l i => s!"f{l}.{i}" | .push l v => s!"p{l}.{v}"
+  | .concat a b => s!"c{a}.{b}" | .contains l v => s!"h{l}.{v}" | .swap l i j => s!"s{l}.{i}.{j}"
+  | .len l => s!"n{l}" | .clone l => s!"k{l}" | .drop l => s!"d{l}" | .eq a b => s!"e{a}.{b}"
+  | .index l v => s!"x{l}.{v}" | .isEmpty l => s!"y{l}" | .toVec l => s!"t{l}"
+
+/-- the observation of one schedule of adaptive programs: that of the step
+    model on the operations issued, provided they `Follows` the adaptive ones -/
+def iobserve (F : Facts) (lists : List (List Nat)) (iprogs : List (List IOp)) (sched : List Nat) : String :=
+  match idrive F lists iprogs sched with
+  | none => "invalid"
+  | some progs =>
+    match run F (init lists progs) sched with
+    | none => "invalid"
+    | some s =>
+      if (List.range iprogs.length).all fun t =>
+          decide (Follows (iprogs.getD t []) (progs.getD t []) (s.threads t).results) then
+        observe F lists progs sched
+      else "not-following"
+
 def handle (args : List String) : String :=
   match args with
   | ["facts"] =>
@@ -124,6 +167,24 @@ def handle (args : List String) : String :=
       "|".intercalate (scheds.map fun sc =>
         s!"{String.join (sc.map toString)}:{observe F lists progs sc}")
     | _, _, _ => "bad-op"
+  | ["ienum", f, ls, ps] =>
+    match parseFacts f, parseLists ls, parseIProgs ps with
+    | some F, some lists, some iprogs =>
+      let scheds := iallSchedules F lists iprogs (ifuelFor iprogs) []
+      "|".intercalate (scheds.map fun sc =>
+        s!"{String.join (sc.map toString)}:{iobserve F lists iprogs sc}")
+    | _, _, _ => "bad-op"
+  | ["irun", f, ls, ps, sc] =>
+    match parseFacts f, parseLists ls, parseIProgs ps, parseSched sc with
+    | some F, some lists, some iprogs, some sched => iobserve F lists iprogs sched
+    | _, _, _, _ => "bad-op"
+  | ["iprogs", f, ls, ps, sc] =>
+    match parseFacts f, parseLists ls, parseIProgs ps, parseSched sc with
+    | some F, some lists, some iprogs, some sched =>
+      match idrive F lists iprogs sched with
+      | some progs => ";".intercalate (progs.map fun p => ",".intercalate (p.map showOp))
+      | none => "invalid"
+    | _, _, _, _ => "bad-op"
   | ["run", f, ls, ps, sc] =>
     match parseFacts f, parseLists ls, parseProgs ps, parseSched sc with
     | some F, some lists, some progs, some sched => observe F lists progs sched
